@@ -23,7 +23,22 @@ func ZZNewGtp5g() *Gtp5g {
 		}
 		return nil, nil
 	}
+	zzPS = nil // a fresh periodic-report server per driver object
 	return zzGtp5g(7)
+}
+
+// ZZPerioNonPositive drains the registrations the driver has queued for the periodic-report server
+// and counts those without a positive period. The server hands the period to time.NewTicker, which
+// panics on a non-positive one - in the server's own goroutine, where nothing recovers: the process
+// ends. (The harness server does not run that goroutine; this is the link it checks instead.)
+func ZZPerioNonPositive() int {
+	n := 0
+	for _, e := range zzPerio().ZZDrain() {
+		if e.Type == 1 && e.Period <= 0 {
+			n++
+		}
+	}
+	return n
 }
 
 // ZZRequests is the number of netlink requests the simulated kernel has seen.
